@@ -46,7 +46,7 @@ func c11Table(r *R, f *core.FSM) {
 			continue
 		}
 		sts := storesTo(fn, pe.field)
-		ok := len(sts) == 1 && r.d.Of(sts[0].Val) == pe.val && len(r.p.AtomsAtInstr(sts[0])) == 0
+		ok := len(sts) == 1 && f.ActionD(r.p, ev).Of(sts[0].Val) == pe.val && len(r.p.AtomsAtInstr(sts[0])) == 0
 		c.Check(ok, "C11.1", "flag:"+ev, r.p.Pos(fn.Pos()), pe.field+" := "+pe.val, fmt.Sprintf("action of %s does not unconditionally set %s = %s", ev, pe.field, pe.val))
 		other := "InitiatorPaused"
 		if pe.field == "InitiatorPaused" {
